@@ -340,7 +340,7 @@ def _ampemb(tier):
 def _iqpemb(tier):
     return [sk("IQPEmbedding", "IQPEmbedding", ARR(A.ld((2,), 1)), v="2w", wires=W([0, 1])),
             sk("IQPEmbedding", "IQPEmbedding", ARR(A.ld((3,), 2)), v="3w,rep2", wires=W([0, 1, 2]), n_repeats=2),
-            sk("IQPEmbedding", "IQPEmbedding", ARR(A.ld((3,), 2)), v="3w,pattern", wires=W([0, 1, 2]), pattern=[[0, 2]]),
+            sk("IQPEmbedding", "IQPEmbedding", ARR(A.ld((3,), 2)), v="3w,pattern", wires=W([0, 1, 2]), pattern=[W([0, 2])]),
             sk("IQPEmbedding", "IQPEmbedding", ARR(np.zeros(2)), v="2w,zeros", wires=W([0, 1]))]
 
 
